@@ -70,8 +70,9 @@ Print Assumptions C07_ugrid_cartesian_only_refuted.
 
 (* ---- can be written to NetCDF --------------------------------------------------------- *)
 
-(* for every template a history can produce: writable iff the grid's own variables carry only
-   storable attributes (the topology variable never blocks) *)
+(* for every template a history can produce: writable iff the grid's own variables — and the
+   dataset's global attributes, carried as one more entry — hold only storable attributes (the
+   topology variable never blocks; Example c07_ugrid_writable_global_attrs) *)
 Theorem C07_ugrid_writable : forall vr tmpl ds, c07_tmpl_ok tmpl ->
   c07_writable (uo_ds (c07_encode_ugrid vr tmpl ds)) = c07_writable (c07_ds1 (c07_ds0 vr ds)).
 Proof. exact c07_ugrid_writable. Qed.
